@@ -66,6 +66,12 @@ def main(tier, seed):
     Ns = set(range(1, 13)) | {25, 100} if q else set(range(1, 25)) | {25, 50, 100, 300}
     Ps = set(range(1, 13)) | {999, 1000, 1001} if q else set(range(1, 41)) | {999, 1000, 1001}
     Qs = set(range(1, 13)) | {1000}
+    triples = {(n_, p_, q_) for n_ in Ns for p_ in Ps for q_ in Qs}
+    # skews within 1e-5 .. 1e-9 of 1 (but not 1), and very large / very small ones
+    for n_ in (2, 3, 5, 12, 25):
+        for p_, q_ in ((100001, 100000), (99999, 100000), (1000001, 1000000), (999999, 1000000), (100000, 1), (1, 100000)):
+            triples.add((n_, p_, q_))
+    triples = {t for t in triples if t[0] * (t[0] - 1) * (t[1] + t[2]) < 2 ** 31}
 
     def on_result(info):
         rep.evaluations += 1
@@ -73,14 +79,14 @@ def main(tier, seed):
             rep.distinct.add(info['hash'])
         rep.sample(info['sample'])
     try:
-        res = engine.tlc_replay(rep, pool, 'MC_Skew', replay_skew, consts=dict(Ns=Ns, Ps=Ps, Qs=Qs),
-                                invariants=['Positive', 'SumsToOne', 'CommonDen', 'Arithmetic', 'LastIsSTimesFirst', 'SingleAgent', 'Export'],
+        res = engine.tlc_replay(rep, pool, 'MC_Skew', replay_skew, consts=dict(Triples=tlc.tla_set(triples)),
+                                invariants=['Positive', 'SumsToOne', 'CommonDen', 'Arithmetic', 'LastIsSTimesFirst', 'LastFirstRatio', 'SingleAgent', 'Export'],
                                 on_result=on_result, timeout=1800)
     finally:
         pool.close()
-    if res['exports'] != len(Ns) * len(Ps) * len(Qs):
-        common.machinery_exit('C17', 'exported %d, expected %d' % (res['exports'], len(Ns) * len(Ps) * len(Qs)))
+    if res['exports'] != len(triples):
+        common.machinery_exit('C17', 'exported %d, expected %d' % (res['exports'], len(triples)))
     growth_sampling(rep, seed)
     rep.assumptions = ['numeric equality up to relative tolerance 1e-9 (the function returns floats)']
-    return rep.finish(exhaustive=True, rule='all n in %s and skews p/q with p in %s, q in %s (s from 1/1000 to 1001, s = 1, s just below and above 1); non-trivial = n >= 2'
-                           % (sorted(Ns)[-4:], sorted(Ps)[-5:], sorted(Qs)[-3:]))
+    return rep.finish(exhaustive=True, rule='%d triples (n, p, q): all n in 1..12 (24) x p, q in 1..12 (40), plus n up to 100 (300), skews from 1/100000 to 100000 and '
+                           'skews within 1e-5 and 1e-6 of 1; non-trivial = n >= 2' % len(triples))
